@@ -596,6 +596,7 @@ loop:
 	for {
 		releaseHandled()
 		verifLoopTop(len(strms), openStreams, len(closedRing), verifHeldBytes(strms))
+		verifResetMem(len(sc.resetByUs))
 
 		select {
 		case <-sc.closer:
